@@ -372,6 +372,11 @@ func bookings(s *hx.Seq) {
 				want = append(want, id)
 			}
 		}
+		// a booking that has no period at all intersects nothing, whatever is asked for (also "all time")
+		if _, err := m.CreateBooking(&traits.Booking{Id: "zz-no-period"}); err != nil {
+			s.Fail("booking-create", err.Error(), nil)
+			return
+		}
 		s.Eval(1)
 		s.Trans(len(periods))
 		resp, err := srv.ListBookings(ctx, &traits.ListBookingsRequest{Name: "n", BookingIntersects: &sctime.Period{StartTime: ts(q[0]), EndTime: ts(q[1])}})
